@@ -120,7 +120,7 @@ def random_program(rnd: random.Random) -> dict:
     if r < 0.2:
         return {"chain": chain, "outer": rnd.choice(["hand", "hand", "plain"]), "split": 0}
     if r < 0.45:
-        return {"chain": chain, "outer": "none", "split": rnd.randrange(1, len(chain))}
+        return {"chain": chain, "outer": "none", "split": rnd.randrange(1, len(chain)), "link": rnd.choice(["import", "wildcard"])}
     return {"chain": chain, "outer": "none", "split": 0}
 
 
@@ -135,10 +135,11 @@ def chain_to_target(chain: list) -> list:
 
 def run_targets(directory: str, chains: list, fix: list, workers: int = 4):
     """chains: programs {"chain", "outer", "split"} (a bare chain = module level, one package)."""
-    chains = [c if isinstance(c, dict) else {"chain": c, "outer": "none", "split": 0} for c in chains]
+    chains = [c if isinstance(c, dict) and "chain" in c else {"chain": c, "outer": "none", "split": 0} for c in chains]
     path = os.path.join(directory, "targets.json")
     with open(path, "w") as fh:
-        json.dump([{"chain": chain_to_target(c["chain"]), "outer": c.get("outer", "none"), "split": c.get("split", 0)} for c in chains], fh)
+        json.dump([{"chain": chain_to_target(c["chain"]), "outer": c.get("outer", "none"), "split": c.get("split", 0),
+                    "link": c.get("link", "import")} for c in chains], fh)
     res = tlc.run("Dataclass", "Dataclass_check.cfg", workers=workers, timeout=1500,
                   constants={"DOMS": tla_set(["target"]), "ALLOW": tla_set(TAGS), "FIX": tla_set(fix), "EMIT": "TRUE"},
                   env={"C18_TARGETS": path, **(JVM_SMALL if len(chains) < 20000 else JVM_BIG)})
